@@ -673,7 +673,9 @@ static void WikiSort(T *restrict array, const size_t size) {
 					else if (Range_length(buffer2) > 0)
 						BlockSwap(array, lastA.start, buffer2.start, Range_length(lastA));
 					
-					while (true) {
+					/* with too few unique values for the tag buffer a block is
+					 * bigger than A and there's no evenly sized block to roll */
+					while (Range_length(blockA) > 0) {
 						/* if there's a previous B block and the first value of the minimum A block is <= the last value of the previous B block, */
 						/* then drop that minimum A block behind. or if there are no B blocks left then keep dropping the remaining A blocks. */
 						if ((Range_length(lastB) > 0 && !compare(array[lastB.end - 1], min_value)) || Range_length(blockB) == 0) {
